@@ -314,6 +314,9 @@ class Check:
             cmd = "coqchk -silent -o -Q theories MV -Q gen MVGen MV.Props.%s" % (pid or self.pid)
             with Lock("build"):
                 p = sh("timeout 3000 " + cmd, cwd=os.path.join(ROOT, "coq"), timeout=3100)
+                if p.returncode != 0 and not (p.stdout or "").strip():
+                    # killed without a word (observed once under memory pressure from unrelated jobs): not a verdict, run again
+                    p = sh("timeout 3000 " + cmd, cwd=os.path.join(ROOT, "coq"), timeout=3100)
             out = p.stdout or ""
             summ = out[out.find("CONTEXT SUMMARY"):] if "CONTEXT SUMMARY" in out else out[-800:]
             self.cov["coqchk"] = {"cmd": "cd coq && " + cmd, "exit": p.returncode, "summary": " ".join(summ.split())[:900]}
